@@ -62,6 +62,19 @@ def _fld(tv, fid):
     return None
 
 
+def _pandas_meta(tv):
+    """the JSON document stored under the key 'pandas' in FileMetaData.key_value_metadata, or None"""
+    kv = _fld(tv, 5)
+    for e in (kv[2] if kv else []):
+        k, v = _fld(e, 1), _fld(e, 2)
+        if k and bytes(k[1]) == b"pandas" and v:
+            try:
+                return json.loads(bytes(v[1]).decode("utf-8"))
+            except Exception:   # noqa
+                return None
+    return None
+
+
 def _strip_paths(rg):
     """RowGroup tv with ColumnChunk.file_path removed"""
     cols = _fld(rg, 1)
@@ -108,8 +121,16 @@ def check_dataset(path, df, spec, o, fm):
         for rg in r["rgs"]:
             for l, cells in zip(leaves, rg):
                 cols[l["name"]].extend(cells)
+        tv = _footer_tv(fm, data)
+        pm = _pandas_meta(tv)
+        if pm is None:
+            res["problems"].append(("metadata", "%s: key_value_metadata['pandas'] missing or not JSON" % os.path.basename(fn)))
+        else:
+            named = [c.get("name") for c in pm.get("columns", []) if isinstance(c, dict)]
+            miss = [str(c) for c in df.columns if str(c) not in [str(x) for x in named]]
+            if miss:
+                res["problems"].append(("metadata", "%s: pandas metadata does not name columns %r" % (os.path.basename(fn), miss[:3])))
         if metas:
-            tv = _footer_tv(fm, data)
             part_rgs += [(os.path.relpath(fn, path), _strip_paths(rg)) for rg in (_fld(tv, 4) or [0, 0, []])[2]]
     for fn in metas:
         data = open(fn, "rb").read()
